@@ -6,6 +6,12 @@
   Core Lean only.  The parts of the C code that are tables or one-token decisions are read from the current source
   by translate/g_gcmark.py (CelloGen/GcMark.lean) and enter the model through `Cfg.current`.
 
+  Two layers.  (1) `dfs` / `gcMark` / `sweep` / `collect` / `HState.run`: the mark phase and the unlink phase of the sweep on a
+  registry whose mark bits are clear (also imported by the C18 engine).  (2) at the end of the file, the whole collector:
+  `gcMarkFrom` (the mark phase from bits that are already set — the `marked` field survives when an exception leaves `GC_Mark`),
+  `release` (the release loop of `GC_Sweep`: destructors, `Box_Del` → `del` → `GC_Rem_Ptr`), `collectAll`, and `GState.run`
+  (histories whose state includes the mark bits, with collections that are left by an exception and registry rehashes).
+
   Object representations (what the collector sees when it is handed a pointer to the object):
     raw  ty ws      a struct whose `size(type)/8` words are `ws` (plain structs, Ref, Box, Int, String, …)
     cont ty elems   a container whose Mark instance hands a pointer to every *embedded* element (Array, List; Table and
